@@ -116,6 +116,14 @@ Proof.
   unfold deletables. rewrite !filter_In. tauto.
 Qed.
 
+(* commit b06b6de: nothing whose basename is a control filename (.bzr, .git) is ever deletable *)
+Theorem control_names_never_deletable fl o ign t vs p :
+  In p (deletables fl o ign t vs) -> is_control_name (last_name p) = false.
+Proof.
+  unfold deletables. rewrite !filter_In. unfold not_control. intros (((_ & H) & _) & _).
+  apply negb_true_iff in H. exact H.
+Qed.
+
 (* ---- only what was requested --------------------------------------- *)
 
 Theorem only_requested fl o ign t vs p :
@@ -138,8 +146,8 @@ Theorem no_category_nothing fl o ign t vs :
   deletables fl o ign t vs = [].
 Proof.
   intros H1 H2 H3. unfold deletables.
-  assert (filter (selected o ign) (extras fl t vs) = []) as ->; [|reflexivity].
-  induction (extras fl t vs) as [|p l IH]; [reflexivity|]. simpl.
+  assert (filter (selected o ign) (filter not_control (extras fl t vs)) = []) as ->; [|reflexivity].
+  induction (filter not_control (extras fl t vs)) as [|p l IH]; [reflexivity|]. simpl.
   unfold selected at 1. rewrite H1, H2, H3. simpl. destruct (mem_path p ign); exact IH.
 Qed.
 
@@ -300,21 +308,58 @@ Proof.
   split; [reflexivity|]. split; [|reflexivity]. eexists. split; reflexivity.
 Qed.
 
-(* bzr tree colocated with a git repository: .git/HEAD next to .bzr, f versioned *)
+(* ---- foreign control directories (fixed by b06b6de) ----------------- *)
+
+Lemma last_name_snoc d c : last_name (d ++ [c]) = c.
+Proof. unfold last_name. apply last_last. Qed.
+
+(* bzr tree: an unversioned entry named .bzr/.git directly inside the root or a versioned
+   directory survives with everything below it *)
+Theorem foreign_control_safe_bzr o ign t vs d c q :
+  wf_node t = true -> parent_closed vs ->
+  (d = [] \/ versioned vs d = true) ->
+  is_control_name c = true -> versioned vs (d ++ [c]) = false ->
+  is_prefix (d ++ [c]) q = true ->
+  kind_at q (clean Bzr o ign t vs) = kind_at q t.
+Proof.
+  intros Hw Hpc Hd Hc Hu Hq. apply untouched_unless_below_deletable. intros p Hin.
+  destruct (prefix_false_or_true p q) as [|Hp]; [assumption|exfalso].
+  pose proof (control_names_never_deletable _ _ _ _ _ _ Hin) as Hn.
+  apply deletables_extras in Hin as (He & _).
+  apply bzr_extras_sound in He as (Hpn & Hpu & _ & _ & Hpp); [|assumption].
+  destruct (path_eq_dec p (d ++ [c])) as [->|Hne].
+  { rewrite last_name_snoc in Hn. congruence. }
+  destruct (prefix_comparable p (d ++ [c]) q Hp Hq) as [H|H].
+  - destruct (strict_prefix_split p (d ++ [c]) H Hne) as (b & E & Hb).
+    (* p is a prefix of d *)
+    assert (exists b', d = p ++ b') as (b' & ->).
+    { destruct (nonempty_app_cases b) as [->|(b' & x & ->)]; [congruence|].
+      rewrite app_assoc in E. apply app_inj_tail in E as [E _]. eauto. }
+    destruct Hd as [Hd|Hd].
+    + destruct p; [congruence|discriminate].
+    + rewrite (Hpc p b' Hd Hpn) in Hpu. discriminate.
+  - destruct (strict_prefix_split (d ++ [c]) p H (not_eq_sym Hne)) as (b & -> & Hb).
+    assert (d ++ [c] <> []) as Hne' by (destruct d; discriminate).
+    rewrite (versioned_dir_versioned _ _ (Hpp (d ++ [c]) b eq_refl Hne' Hb)) in Hu. discriminate.
+Qed.
+
+(* the former witness of C46-foreign-control-dir: .git/HEAD next to .bzr, f versioned *)
 Definition coloc_tree : node :=
   Dir [(n_bzr, Dir []); (n_git, Dir [(nm [72;69;65;68], File)]); (nm [102], File)]%N.
+Definition coloc_vs : list (path * bool) := [([nm [102]], false)]%N.
 
-Lemma foreign_refuted :
-  wf_node coloc_tree = true /\
-  (exists cs, lookup [] coloc_tree = Some (Dir cs) /\ has_control cs = true) /\
-  parent_closed [([nm [102]], false)]%N /\
-  kind_at [n_git] (clean Bzr only_unknown [] coloc_tree [([nm [102]], false)]%N) = None.
+Lemma coloc_parent_closed : parent_closed coloc_vs.
 Proof.
-  split; [reflexivity|]. split; [eexists; split; reflexivity|]. split; [|reflexivity].
   intros a b H Ha. unfold versioned in H. apply mem_path_In in H. simpl in H.
   destruct H as [H|[]]. destruct a as [|x a]; [congruence|].
   destruct a; [|destruct a; discriminate]. simpl in H. injection H as <- <-. reflexivity.
 Qed.
+
+Lemma coloc_now_safe :
+  wf_node coloc_tree = true /\
+  clean Bzr only_unknown [] coloc_tree coloc_vs = coloc_tree /\
+  In [n_git] (extras Bzr coloc_tree coloc_vs).
+Proof. repeat split. left; reflexivity. Qed.
 
 (* git tree with a nested bzr branch n/.bzr/branch-format *)
 Definition gitbzr_tree : node :=
